@@ -213,3 +213,45 @@ def spec_jsonc(v):
 
 def writes_of(out):
     return []
+
+
+def snapshot(obj):
+    """Deep copy of a mutable argument, to state that a call does not modify it."""
+    import copy
+    return copy.deepcopy(obj)
+
+
+def unchanged(obj, snap):
+    return obj == snap
+
+
+def truthy(v):
+    return bool(v)
+
+
+def specfn(f):
+    """Marks a spec function: unfolded when a contract is verified, opaque when it is applied."""
+    f.__specfn__ = True
+    return f
+
+
+def opaque(fn, *args):
+    """Apply a spec function without unfolding it (native side: just call it)."""
+    return fn(*args)
+
+
+def check_contract(c, p, out, label):
+    """Obligations of contract `c` for one observed outcome `out` of the real function."""
+    if out.returned:
+        if c.returns is not None:
+            check(c.returns(p), label + ": returns => ensures")
+        if c.result is not None:
+            check(py_eq(out.value, c.result(p)), label + ": result")
+    else:
+        matched = False
+        for cls, fact in c.raises.items():
+            if out.raised(cls) and not matched:
+                matched = True
+                if fact is not None:
+                    check(fact(p), label + ": raises " + cls.__name__ + " => its condition")
+        check(matched, label + ": raises only the declared exception classes")
